@@ -654,4 +654,7 @@ def run(prog, rep, tier, snap):
     from ..rules import state
     rep.rule("R05.9", "the serialiser carries no state from one task to the next (memo keys must cover every argument)", 1)
     rep.call(state.no_carried_state, prog, rep, "R05.9", "serialise")
+    from . import c07
+    rep.rule("R07.1", "the zone handle of a DTSTART reads back as the zone whose TZID is written (shared with C07)", 2)
+    rep.call(c07.r07_1, prog, rep)
 READY = True
